@@ -30,6 +30,8 @@ let () =
     match Sys.argv with
     | [| _; "layout" |] -> layout
     | [| _; "core" |] -> Corecmd.handle
+    | [| _; "literal" |] -> Litcmd.handle
+    | [| _; "span" |] -> Spancmd.handle
     | _ -> prerr_endline "usage: svd <command>"; exit 2 in
   (try
      while true do
